@@ -7,4 +7,6 @@ import (
 
 func init() {
 	tr.Components["wssession"] = wssession.RunInline
+	tr.Components["wssession-deferred"] = wssession.RunDeferred
+	tr.Components["wssession-real"] = wssession.RunReal
 }
